@@ -7,7 +7,7 @@ git checkout -q -- . ; rm -f tests/seed_demo.rs
 echo "== confirm $ID patch$N $(date -u +%FT%TZ)"
 git apply $SD/patch$N.diff && echo "patch applies"
 echo "-- test suite with patch"
-cargo nextest run --workspace --no-fail-fast --offline --test-threads 6 2>&1 | grep -E "Summary|error(\[|:)" | head -5
+cargo nextest run --workspace --no-fail-fast --offline --test-threads 6 2>&1 | grep -E "^\s*Summary|^error" | head -3
 cp $SD/demo$N.rs tests/seed_demo.rs
 echo "-- demo with patch (must FAIL)"
 cargo test --offline --test seed_demo 2>&1 | grep -E "^test result|panicked|error(\[|:)" | head -5
